@@ -208,38 +208,13 @@ class Snapshot:
         return val
 
 
-def instants(a, b):
-    """Run-time stand-in for "every instant of [a, b]": the end points and the millisecond grid between."""
-    if b < a:
-        return
-    yield a
-    step = timedelta(milliseconds=1)
-    half = timedelta(microseconds=500)
-    t = a
-    n = 0
-    while t + half <= b and n < 2000:
-        yield t + half
-        t = t + step
-        if t <= b:
-            yield t
-        n += 1
-    yield b
-
-
-def ms_aligned(x):
-    if isinstance(x, timedelta):
-        return x % timedelta(milliseconds=1) == timedelta(0)
-    return x.microsecond % 1000 == 0
-
-
-def floor_to_ms(t):
-    return t - timedelta(microseconds=t.microsecond % 1000)
+from pyvc.specrt import *  # noqa: E402,F401,F403
+from pyvc import specrt
 
 
 def spec_globals(modnames):
-    g = {"timedelta": timedelta, "datetime": datetime, "timezone": timezone, "instants": instants,
-         "EPOCH": EPOCH, "fresh": lambda x: True, "allocated": lambda x: True, "ms_aligned": ms_aligned,
-         "floor_to_ms": floor_to_ms}
+    g = {"timedelta": timedelta, "datetime": datetime, "timezone": timezone}
+    g.update({k: getattr(specrt, k) for k in specrt.__all__})
     for m in modnames:
         mod = importlib.import_module(m)
         for k, v in vars(mod).items():
@@ -261,6 +236,8 @@ def run_case(fn, contract, args, glob, clauses=None):
     except Exception as e:
         out["pre_ok"] = False
         out["pre_error"] = repr(e)[:200]
+        if isinstance(e, (NameError, AttributeError, TypeError)):
+            raise
         return out
     snap = Snapshot(args, glob)
     g2 = dict(glob)
